@@ -7,6 +7,8 @@ proof:          lean/OdfModel/Props/C15.lean (validated_full, idempotent, patter
                 binding_compatible over every attribute occurrence of the schema, finding_* counter-examples)
 correspondence: every cnv_* function, every pattern_*.match, every schema pattern facet, the lookup order of
                 AttrConverters.convert and Element.setAttrNS/getAttrNS  vs  drv_attr
+history:        every near-miss is asked in the fresh process, then again after all schema-valid values (incl. values of the
+                other validated types), a serialisation and a load(): the verdict must be the same (replay = call history)
 oracle:         for every (element, attribute) pair of the schema, values drawn from the attribute's schema datatype
                 must be accepted by setAttrNS, read back unchanged, serialise unchanged (expat), survive a second
                 conversion and a load(); near-misses of the validated types must raise ValueError
@@ -243,6 +245,14 @@ def run(chk, replay=None):
 
     if replay is not None:
         inp = replay['input']
+        if 'history' in inp:
+            # the verdict on the last call must be what a fresh process gives (recorded in 'fresh'), whatever came before
+            res = None
+            for el, attr, v in inp['history']:
+                _, res = set_get(tuple(el), tuple(attr), dec_str(v))
+                print('replay: <%s> %s=%r -> %s' % (el[1], attr[1], dec_str(v), res))
+            print('replay: a fresh process gives %s for the last call' % inp['fresh'])
+            return 0 if res == inp['fresh'] else 1
         el, attr, v = tuple(inp['element']), tuple(inp['attribute']), dec_str(inp['value'])
         e, res = set_get(el, attr, v)
         print('replay: <%s> %s=%r -> %s (expected %s)' % (el[1], attr[1], v, res if e is None else repr(dec_str(res[3:])), inp['expect']))
@@ -313,6 +323,9 @@ def run(chk, replay=None):
             frozen[((ens, el), (ans, al))] = c
     cases = []            # (el, attr, value, expect, dt, cnvname)
     nm_used = {}
+    seeded = {}
+    # what is a value of one validated type is a near-miss for the others (and must stay one whatever was stored before)
+    cross_values = [v for t in sorted(type_valid) for v in type_valid[t]] + [u'new', u'row', u'paragraph', u'simple', u'true']
     for (e, a) in sorted(pairs):
         cnvname = real_lookup(a, e)
         for dt in pairs[(e, a)]:
@@ -330,18 +343,30 @@ def run(chk, replay=None):
         if cnvname in PATTERN_TYPES:
             types = PATTERN_TYPES[cnvname]
             for tname in types:
-                for s in near_misses(tname, type_valid[tname]):
-                    if not any(in_type(t2, s) for t2 in types):
+                for s in near_misses(tname, type_valid[tname]) + cross_values:
+                    if not any(in_type(t2, s) for t2 in types) and s not in nms:
                         nms.append(s)
         elif cnvname in ENUM_CONVERTERS:
             members = sorted(enum_union.get(cnvname, ()))
-            for s in near_misses('enum', members):
-                if s not in enum_union.get(cnvname, ()) and s.strip(u' \t\n\r') not in enum_union.get(cnvname, ()):
+            for s in near_misses('enum', members) + cross_values:
+                if s not in enum_union.get(cnvname, ()) and s.strip(u' \t\n\r') not in enum_union.get(cnvname, ()) and s not in nms:
                     nms.append(s)
+        # values of the validated types are stored on the first pairs of each type (they are near-misses elsewhere)
+        for tname, key in (('length', 'length'), ('percent', 'percent'), ('points', 'points'),
+                           ('viewbox', 'list(integer,integer,integer,integer)')):
+            if cnv_now in PATTERN_TYPES and tname in PATTERN_TYPES[cnv_now] and seeded.get(tname, 0) < 3:
+                for dt in pairs[(e, a)]:
+                    if tr.dt_key(dt) == key:
+                        seeded[tname] = seeded.get(tname, 0) + 1
+                        for v in type_valid[tname]:
+                            if in_type(tname, v):
+                                cases.append((e, a, v, 'keep', dt, cnv_now))
+                        break
         if nms:
             first = cnvname not in nm_used
             nm_used[cnvname] = nm_used.get(cnvname, 0) + 1
-            pick = nms if (first or thorough) else [nms[(nm_used[cnvname] * 7 + i * 3) % len(nms)] for i in range(12)]
+            pick = nms if (first or thorough) else [nms[(nm_used[cnvname] * 7 + i * 3) % len(nms)] for i in range(12)] + \
+                [x for x in cross_values if x in nms]
             for s in pick:
                 cases.append((e, a, s, 'reject', None, cnvname))
         cnvname = cnv_now
@@ -349,11 +374,33 @@ def run(chk, replay=None):
                    not vals.sampler_mismatch, repr(vals.sampler_mismatch[:3]))
 
     qid = tr.qid
+    # HISTORY: phase A = every near-miss in the fresh process (nothing has been converted yet); phase B = the schema-valid
+    # values of every pair, their serialisation and a load(); phase C = every near-miss again, and a sample of phase B again.
+    # The verdict on (element, attribute, value) must not depend on what was converted before.
+    cases = [c for c in cases if c[3] == 'reject'] + [c for c in cases if c[3] != 'reject']
     answers = drv.batch('set %d %d %s' % (qid[a], qid[e], enc_str(v)) for e, a, v, _, _, _ in cases)
+    verdict = {}          # (el, attr, value) -> verdict of the first call
+    accepted_by_value = {}  # value -> earlier accepted calls with that value (the candidate history)
+    def same_verdict(e, a, v, res, cnvname, phase):
+        key = (e, a, v)
+        if key not in verdict:
+            verdict[key] = res
+        elif verdict[key] != res:
+            # candidate history: earlier accepted calls with the same string, those through validating converters first
+            prev = [(e2, a2) for e2, a2 in accepted_by_value.get(v, []) if (e2, a2) != (e, a)]
+            prev.sort(key=lambda p: 0 if real_lookup(p[1], p[0]) in PATTERN_TYPES else 1 if real_lookup(p[1], p[0]) not in ident else 2)
+            hist = [[list(e2), list(a2), enc_str(v)] for e2, a2 in prev[:4]]
+            chk.fail('history-dependent:%s' % cnvname,
+                     {'history': hist + [[list(e), list(a), enc_str(v)]], 'fresh': verdict[key], 'phase': phase},
+                     '<%s> %s=%r gave %s in a fresh process but %s after other values had been converted (e.g. the same string on %s)'
+                     % (e[1], a[1], v, verdict[key], res, ', '.join('<%s> %s' % (h[0][1], h[1][1]) for h in hist) or 'other attributes'))
+        if res.startswith('ok') and verdict[key] == res:
+            accepted_by_value.setdefault(v, []).append((e, a))
     kept = []             # accepted and unchanged: serialisation / load are checked on these
     ident = set(tr.cnv_names[:tr.n_identity])
     for (e, a, v, expect, dt, cnvname), ans in zip(cases, answers):
         el, res = set_get(e, a, v)
+        same_verdict(e, a, v, res, cnvname, 'A' if expect == 'reject' else 'B')
         chk.corr()
         if res != ans:
             chk.corr_diff({'element': list(e), 'attribute': list(a), 'value': enc_str(v)}, res, ans, 'setAttrNS then getAttrNS')
@@ -438,6 +485,19 @@ def run(chk, replay=None):
                 chk.fail('loaded-changed:%s' % cnvname, {'element': list(e), 'attribute': list(a), 'value': enc_str(v), 'expect': 'keep'},
                          'after load() the value is %r' % (got,))
 
+    # ------------------------------------------------------------ phase C: the same questions again, after that history
+    again = [(c, ans) for c, ans in zip(cases, answers) if c[3] == 'reject']
+    keeps = [(c, ans) for c, ans in zip(cases, answers) if c[3] != 'reject']
+    again += [keeps[i] for i in sorted(chk.rng.sample(range(len(keeps)), min(len(keeps), 6000 if thorough else 2000)))]
+    chk.rng.shuffle(again)
+    for (e, a, v, expect, dt, cnvname), ans in again:
+        el, res = set_get(e, a, v)
+        chk.corr(); chk.count('phaseC_' + expect)
+        if res != ans:
+            chk.corr_diff({'element': list(e), 'attribute': list(a), 'value': enc_str(v), 'phase': 'C'}, res, ans,
+                          'setAttrNS then getAttrNS, after other values have been converted')
+        same_verdict(e, a, v, res, cnvname, 'C')
+
     # ------------------------------------------------------------ correspondence: converters, patterns, lookup order
     probe_el = Element(qname=(u'urn:oasis:names:tc:opendocument:xmlns:text:1.0', u'p'), check_grammar=False)
     pool = list(GENERIC)
@@ -491,6 +551,24 @@ def run(chk, replay=None):
         chk.corr(); chk.count('corr_' + l.split(' ', 1)[0])
         if x != g:
             chk.corr_diff({'line': l}, x, g, 'converter / pattern / lookup correspondence')
+    # the converters once more in the opposite order (a converter's answer must not depend on the calls before it)
+    for l, x, g in reversed(list(zip(lines, expect, got))):
+        if not l.startswith('conv '):
+            continue
+        _, name, w = l.split(' ')
+        try:
+            r = getattr(ac, name)((u'ns', u'attr'), dec_str(w), probe_el)
+            out = ('ok ' + enc_str(r)) if isinstance(r, str) else 'err Other'
+        except ValueError:
+            out = 'err ValueError'
+        except Exception:
+            out = 'err Other'
+        chk.corr(); chk.count('corr_conv_reversed')
+        if out != g:
+            chk.corr_diff({'line': l, 'order': 'reversed'}, out, g, 'converter correspondence, second pass in reverse order')
+        if out != x:
+            chk.fail('history-dependent:%s' % name, {'history': [], 'fresh': x, 'line': l},
+                     '%s(%r) gave %s first and %s when called again later in the same process' % (name, dec_str(w), x, out))
 
     # ------------------------------------------------------------ search when a proof or the correspondence broke
     def deep():
